@@ -23,5 +23,13 @@ def sim(p, ctx):
     oracles.c04(M, ctx)
 
 
+def sim_history(p, ctx):
+    from props.simcore import run_sim_history
+
+    M = run_sim_history(p, ctx, p["mode"])
+    if M.exc is None:
+        oracles.c04(M, ctx)
+
+
 def obligations(tier, seed):
     return profiles.obligations_for("C04", tier)
